@@ -88,7 +88,10 @@ def eval (name : String) (P : List Int) (X : List Nat) : Ans :=
     guard (selectDefaultLegal ns ni) <| ok [selectDefault (p 0) sels ins d] true [LSpec.selectDefault (p 0) sels ins d]
   | "PriorityEncoder" =>
     let inc := decide (p 2 = 1)
-    ok (priorityEncoder (p 0) (p 1) inc X) (decide (p 0 = p 1) && allLt (p 0) X) (LSpec.priorityEncoder (p 0) inc X)
+    ok (priorityEncoder (p 0) (p 1) inc X) (decide (p 1 ≤ p 0)) (LSpec.priorityEncoder (p 1) inc X)
+  | "PriorityEncoderW" =>       -- exact characterisation for every mix of widths (C08.priorityEncoder_general)
+    let inc := decide (p 2 = 1)
+    ok (priorityEncoder (p 0) (p 1) inc X) true (LSpec.priorityEncoderW (p 0) (p 1) inc X)
   | "Minterm" => guard (andNLegal X) <|
       ok [minterm (p 0) X (P.getD 1 0)] (decide (1 ≤ p 0) && allLt 1 X) [LSpec.minterm X (P.getD 1 0)]
   | "SumOfMinterms" =>
@@ -97,6 +100,23 @@ def eval (name : String) (P : List Int) (X : List Nat) : Ans :=
       ok [sumOfMinterms (p 0) (p 1) (x 0) ms]
         (decide (1 ≤ p 1) && decide (x 0 < 2 ^ p 0) && ms.all fun m => decide (0 ≤ m) && decide (m < (2:Int) ^ p 0))
         [LSpec.sumOfMinterms (x 0) ms]
+  | "SumOfMintermsWrap" =>      -- every list of Python ints (C08.sumOfMinterms_wrap)
+    let ms := P.drop 2
+    guard (sumOfMintermsLegal (p 0) ms) <|
+      ok [sumOfMinterms (p 0) (p 1) (x 0) ms] (decide (1 ≤ p 1) && decide (x 0 < 2 ^ p 0)) [LSpec.sumOfMintermsWrap (p 0) (x 0) ms]
+  | "EqualConstantW" =>         -- result wire of any width, any constant (C08.equalConstant_wide)
+    let v := P.getD 2 0
+    guard (equalConstantLegal (p 0)) <|
+      ok [equalConstant (p 0) (p 1) (x 0) v] (decide (x 0 < 2 ^ p 0)) [LSpec.equalConstantW (p 0) (p 1) (x 0) v]
+  | "NotEqualConstantW" =>
+    let v := P.getD 2 0
+    guard (equalConstantLegal (p 0)) <|
+      ok [notEqualConstant (p 0) (p 1) (x 0) v] (decide (x 0 < 2 ^ p 0)) [LSpec.notEqualConstantW (p 0) (p 1) (x 0) v]
+  | "EqualW" => guard (equalLegal (p 0)) <|
+      ok [equal (p 0) (p 1) (p 2) (x 0) (x 1)] (allLt (p 0) X && decide (x 1 < 2 ^ p 1)) [LSpec.equalW (p 2) (x 0) (x 1)]
+  | "ComparatorW" => guard (comparatorLegal (p 0) (p 3)) <|
+      ok (t3 (comparator (p 0) (p 1) (p 2) (x 0) (x 1))) (decide (1 ≤ p 2) && allLt (p 0) X)
+        (t3 (LSpec.comparatorW (p 0) (p 1) (p 2) (x 0) (x 1)))
   | "EqualConstant" =>
     let v := P.getD 2 0
     guard (equalConstantLegal (p 0)) <|
@@ -149,6 +169,6 @@ def known (name : String) : Bool := (eval name [] []).legal || name ∈
   ["And", "Or", "Xor", "Nor", "Range", "ConcatenateMSBF", "ConcatenateLSBF", "BufEnable", "AndBits", "OrBits", "Mux", "Demux",
    "Decoder", "Select", "OneHotMux", "OneHotDemux", "SelectDefault", "Minterm", "SumOfMinterms", "EqualConstant",
    "EqualConstantWrap", "NotEqualConstant", "Equal", "AnyEqual", "Comparator", "ComparatorSignedUnsigned", "SignedMax2",
-   "SignedMin2"]
+   "SignedMin2", "SumOfMintermsWrap", "EqualConstantW", "NotEqualConstantW", "EqualW", "ComparatorW"]
 
 end Lib.Dyn
